@@ -47,6 +47,8 @@ def check_nan_state(cx, rep):
         n1 = ('len', FS)
         sv = it.read(st, a.args[0].root, ())
         tail2, le2 = sv.fields[iT], sv.fields[iLE]
+        if roles.get('repr') == 'index' and isinstance(tail2, tuple):
+            tail2 = SliceRef(None, (), tail2, n1, False)
         terms = [le2, a.ret] + ([tail2.start, tail2.end] if isinstance(tail2, SliceRef) else [])
         for s in it.sites:
             terms.append(s['cond'])
